@@ -1,6 +1,64 @@
-"""C04 - every request gets exactly one final answer, in bounded time (DESIGN §5 C04)"""
-import json, vlib, pmcheck
+"""C04 - every request gets exactly one final answer, in bounded time (DESIGN §5 C04).
+   Engine R-SIM: recorded runs of the real powermand under the virtual OS (harness/pmsim.c) are replayed pass by pass through
+   the extracted whole-daemon model Model/Daemon.v; the whole-daemon monitors are evaluated on the implementation's behaviour."""
+import json, os
+from concurrent.futures import ThreadPoolExecutor
+import vlib, pmcheck, pmsim, pmgen, pmreplay
+
+
+def version_of(ctx):
+    import re
+    m = re.search(r'#define PACKAGE_VERSION "([^"]*)"', open(os.path.join(ctx.repo, "config/config.h")).read())
+    return m.group(1) if m else "verif"
+
+
+def rsim(ctx, V, exe, n, styles=("healthy", "mixed", "faults"), prefix="rsim", monitors=("alive", "protocol", "wedge"), gen=None):
+    """run n scenarios on pmsim, apply the monitors, replay every run through the model"""
+    import C01
+    consts = pmgen.load_genconsts(ctx.coq)
+    enq = C01.build_enq(ctx)
+    model = pmreplay.build_model(ctx)
+    version = version_of(ctx)
+    gen = gen or pmcheck.gen_scenario
+    scs = [gen(ctx.rng, style=styles[i % len(styles)]) for i in range(n)]
+    sessions = pmcheck.run_batch(ctx, V, exe, scs, list(monitors), prefix)
+
+    def one(x):
+        sc, sess = x
+        if isinstance(sess, Exception):
+            return None
+        try:
+            return pmreplay.replay_session(model, enq, sess, consts, version)
+        except vlib.TieBroken as ex:
+            return (0, (0, str(ex), None, None))
+        except Exception as ex:
+            return (0, (0, "replay failed: %r" % (ex,), None, None))
+    with ThreadPoolExecutor(16) as ex:
+        res = list(ex.map(one, zip(scs, sessions)))
+    npass = 0
+    for sc, sess, r in zip(scs, sessions, res):
+        if r is None:
+            continue
+        k, diff = r
+        if diff == "skipped-telnet":
+            V.count("rsim-skipped-telnet"); continue
+        V.count("rsim-replayed")
+        npass += k
+        V.count("rsim-passes", k)
+        if diff is not None:
+            w = sc.describe(); w["events"] = sess.sim.events
+            V.tie_broken("correspondence", "R-SIM", diff[1], case=w)
+    V.rule = (V.rule + " || " if V.rule else "") + ("R-SIM: every run is replayed through the extracted Model/Daemon.v (the OS answers of each pass - revents, bytes read/written, "
+              "connect results, clock - are the model's input) and compared after EVERY pass: bytes written per client and per device, accepts, client closes, "
+              "connect attempts, the time-out handed to poll, open descriptors, live children, every device's (connect state, logged_in, fd, retry_count, counters, queue length)")
+    return sessions
+
+
 def run(ctx, V):
-    pmcheck.standard_run(ctx, V, ["alive", "protocol", "wedge"], styles=("mixed", "faults", "faults"), n_quick=700)
+    proofs_ok = vlib.proof_gate(ctx, V, extract=["Extract/ExDaemon.vo", "Extract/ExEnqueue.vo"])
+    exe = pmsim.build(ctx)
+    rsim(ctx, V, exe, int(os.environ.get('C04_N', 0)) or 300 if ctx.tier == "quick" else 6000, styles=("mixed", "faults", "healthy"), prefix="c04")
+
+
 def replay(ctx, V, path):
     print(json.dumps(json.load(open(path)), indent=1)[:6000]); return 0
